@@ -69,6 +69,40 @@ check_add(long d, int r)
     return a != r; /* non-trivial: the table contributed */
 }
 
+/* the exact addition (logmath_add_exact; it is what logmath_add does on an object without a table): symmetric, within one unit below and
+ * the rounding tolerance above the true sum (it converts with logmath_log, which rounds down), never below the larger argument by more
+ * than that unit, never above it by more than log 2 */
+static int
+check_exact(long d, int r, int through_add)
+{
+    char cd[160];
+    int x = r, y = (int)(r - d), a, a2, maxincr;
+    long double t;
+    snprintf(cd, sizeof cd, "%s kind=%s d=%ld r=%d", pfx, through_add ? "addnt" : "exact", d, r);
+    mc_set_current(cd);
+    if (y <= ZERO || x <= ZERO)
+        return 0;
+    if (logmath_exp(lm, x) < 1e-290)
+        return 0; /* the larger probability is not representable as a double: outside what an addition through doubles can promise */
+    a = through_add ? logmath_add(lm, x, y) : logmath_add_exact(lm, x, y);
+    a2 = through_add ? logmath_add(lm, y, x) : logmath_add_exact(lm, y, x);
+    if (a != a2) {
+        mc_viol("C19/exact-add-not-symmetric", cd, "exact add(%d,%d)=%d but (%d,%d)=%d", x, y, a, y, x, a2);
+        return -1;
+    }
+    t = (long double)r + true_incr(d);
+    if ((long double)a > t + 1e-3L || (long double)a < t - 1.0L - 1e-3L) {
+        mc_viol("C19/exact-add-inaccurate", cd, "exact add(%d,%d)=%d, true log-sum %.6Lf", x, y, a, t);
+        return -1;
+    }
+    maxincr = (int)ceill(logl(2.0L) / LNB / (long double)(1 << SHIFT));
+    if (a - r > maxincr) {
+        mc_viol("C19/exact-add-above-log2", cd, "exact add(%d,%d)-max=%d > %d", x, y, a - r, maxincr);
+        return -1;
+    }
+    return 1;
+}
+
 static int
 check_conv(long v, int f)
 {
@@ -168,6 +202,10 @@ main(int argc, char **argv)
         sscanf(k, "kind=%15s", kind);
         if (!strcmp(kind, "add") && sscanf(k, "kind=add d=%ld r=%ld", &a, &b) == 2)
             check_add(a, (int)b);
+        else if (!strcmp(kind, "exact") && sscanf(k, "kind=exact d=%ld r=%ld", &a, &b) == 2)
+            check_exact(a, (int)b, 0);
+        else if (!strcmp(kind, "addnt") && sscanf(k, "kind=addnt d=%ld r=%ld", &a, &b) == 2)
+            check_exact(a, (int)b, 1);
         else if (!strcmp(kind, "conv") && sscanf(k, "kind=conv v=%ld f=%ld", &a, &b) == 2)
             check_conv(a, (int)b);
         else if (!strcmp(kind, "zero") && sscanf(k, "kind=zero x=%ld", &a) == 1)
@@ -190,6 +228,43 @@ main(int argc, char **argv)
                 nontriv++;
             if (rc < 0)
                 viol++;
+        }
+    }
+    {
+        /* exact addition: every difference up to the table size and beyond, and far-apart operands (up to the point where the smaller
+         * one underflows), both orders; on an object without a table also through logmath_add, with log-zero on either side */
+        static const long far[] = { 100000, 300000, 800000, 1500000, 3000000, 7200000 };
+        int rs[3] = { 0, -1, -12345 }, k;
+        for (d = 0; d <= (long)TSIZE + 512; d++)
+            for (i = 0; i < 3; i++)
+                for (k = 0; k <= !USE_TABLE; k++) {
+                    rc = check_exact(d, rs[i], k);
+                    evals++;
+                    nontriv += rc > 0;
+                    viol += rc < 0;
+                }
+        for (f = 0; f < 6; f++)
+            for (i = 0; i < 3; i++)
+                for (k = 0; k <= !USE_TABLE; k++)
+                    if (rs[i] - far[f] / (1 << SHIFT) > ZERO + 1) {
+                        rc = check_exact(far[f] / (1 << SHIFT), rs[i], k);
+                        evals++;
+                        nontriv += rc > 0;
+                        viol += rc < 0;
+                    }
+        if (!USE_TABLE) {
+            char cd[160];
+            static const int xs[] = { 0, -1, 5, -12345, -100000 };
+            for (i = 0; i < 5; i++) {
+                snprintf(cd, sizeof cd, "%s kind=zero x=%d", pfx, xs[i]);
+                mc_set_current(cd);
+                if (logmath_add(lm, ZERO, xs[i]) != xs[i] || logmath_add(lm, xs[i], ZERO) != xs[i]) {
+                    mc_viol("C19/zero-not-identity", cd, "object without a table: add(zero,%d)=%d add(%d,zero)=%d", xs[i], logmath_add(lm, ZERO, xs[i]), xs[i],
+                            logmath_add(lm, xs[i], ZERO));
+                    viol++;
+                }
+                evals++;
+            }
         }
     }
     for (i = -3; USE_TABLE && i <= 3; i++) {
